@@ -201,7 +201,21 @@ def expected_scores(h, ca, cb, a_is_label, b_is_label):
     raise HarnessError(f'no reference for documented heuristic name {h!r}: add one (the statement lists the semantics)')
 
 
+_TMP_FILES = []
+
+
 def oracle(case, rec):
+    try:
+        return _oracle(case, rec)
+    finally:
+        while _TMP_FILES:
+            try:
+                os.unlink(_TMP_FILES.pop())
+            except OSError:
+                pass
+
+
+def _oracle(case, rec):
     cols = build_columns(case)
     ncols = len(cols)
     names = list(case['names'][:ncols]) if case.get('names') else [f'f{i}' for i in range(ncols)]
@@ -222,6 +236,7 @@ def oracle(case, rec):
         import json as _json
         import tempfile as _tempfile
         fd, ref_path = _tempfile.mkstemp(prefix='c05-ref-', suffix='.json')
+        _TMP_FILES.append(ref_path)
         with os.fdopen(fd, 'w') as fh:
             _json.dump({'desc': {'features': [n_ for n_ in names if n_ != 'label'][:1], 'fields': []}}, fh)
         rec.cls('reference-json-with-numba-heuristic')
@@ -264,8 +279,6 @@ def oracle(case, rec):
         elif kind_ix == 'gaps':
             df.index = [3 * i + 2 for i in range(nrow)]
         out = mixed_rank_graph(df, args, stubs.InlinePool(), stubs.PBar()).triplet_scores
-    if ref_path:
-        os.unlink(ref_path)
     codes = {n: codes_of(c) for n, c in zip(names, cols)}
     nonconst = sum(1 for c in cols if len(set(c)) > 1)
     rec.nt(nonconst >= 2 and h != 'Constant', key=case)
